@@ -1177,17 +1177,20 @@ class AstEval:
         name = func.get_name()
         dec_trig, dec_other, dec_dm = await func.eval_decorators(self)
         self.dec_eval_depth += 1
-        for dec_func in dec_other:
-            func = await self.call_func(dec_func, None, func)
-            if isinstance(func, EvalFuncVar):
-                # set the function name back to its original instead of the decorator function we just called
-                func.set_name(name)
-                func = func.remove_func()
-                dec_trig += func.decorators
-                dec_dm += func.dm_decorators
-            elif isinstance(func, EvalFunc):
-                func.set_name(name)
-        self.dec_eval_depth -= 1
+        try:
+            for dec_func in dec_other:
+                func = await self.call_func(dec_func, None, func)
+                if isinstance(func, EvalFuncVar):
+                    # set the function name back to its original instead of the decorator function we just called
+                    func.set_name(name)
+                    func = func.remove_func()
+                    dec_trig += func.decorators
+                    dec_dm += func.dm_decorators
+                elif isinstance(func, EvalFunc):
+                    func.set_name(name)
+        finally:
+            # a decorator that raises must not leave later definitions looking nested in a decorator call
+            self.dec_eval_depth -= 1
         if isinstance(func, EvalFunc):
             func.decorators = dec_trig
             func.dm_decorators = dec_dm
